@@ -25,7 +25,12 @@ import (
 )
 
 var forgeRules = []string{"two-signers", "signer-is-ca", "signer-stranger", "tamper.payload", "tamper.signature",
-	"csr-other-ia", "csr-no-ia", "csr-bad-selfsig", "certs-three", "certs-one", "tamper.truncate", "tamper.certs"}
+	"csr-other-ia", "csr-no-ia", "csr-bad-selfsig", "certs-three", "certs-one", "tamper.truncate", "tamper.certs",
+	"reencode"}
+
+// benign tells whether the transport transformation leaves the request valid ("reencode": the message
+// is parsed and re-serialised on the way, nothing else; it also validates the tamper machinery).
+func benign(rule string) bool { return rule == "" || rule == "reencode" }
 
 func runC37Honest(r *core.Run) { runC37(r, false) }
 func runC37Forged(r *core.Run) { runC37(r, true) }
